@@ -24,6 +24,23 @@ def rank_ctors(prog):
             variant = ret.a[0].split("::")[-1]
             ops = ret.a[1]
             out[k] = {"variant": variant, "item": ops[0] if ops else None, "rank": ops[1] if len(ops) > 1 else None}
+    # a constructor written through another one (`fn emoji(item) -> Self { Rank::emoji_ranked(item, 1) }`): the other's aggregate with this
+    # one's arguments put in
+    for _round in range(3):
+        for k, f in prog.fns.items():
+            if k in out or f.get("output") not in (RANK, "Self") or not (f.get("impl") or {}).get("self", "").startswith(RANK) or (f.get("impl") or {}).get("trait"):
+                continue
+            b = prog.body(k)
+            ret = strip_refs(b.expr_local(0))
+            if ret.k == "call" and ret.a[0] in out and len(b.rblocks) <= 3:
+                inner = out[ret.a[0]]
+                actual = {i + 1: a for i, a in enumerate(ret.a[1])}
+
+                def put(e):
+                    if e is None:
+                        return None
+                    return e.rebuild(lambda x: actual.get(x.a[0]) if x.k == "arg" and x.a[0] in actual else None)
+                out[k] = {"variant": inner["variant"], "item": put(inner["item"]), "rank": put(inner["rank"])}
     return out
 
 
